@@ -186,6 +186,69 @@ theorem quad_stationary_lookup :
   · unfold rootsOrDouble
     norm_num [Roots.quadraticRoots_eq_model, Roots.qrModel]
 
+/-- **the helper finds every root in [0,1] of a non-degenerate equation** (real arithmetic): a simple root through the solver, a
+    double root through the vanishing discriminant -/
+theorem rootsOrDouble_complete (a b c t : ℝ) (h0 : 0 ≤ t) (h1 : t ≤ 1) (hr : a * t * t + b * t + c = 0) (hnd : a ≠ 0 ∨ b ≠ 0) :
+    t ∈ rootsOrDouble Real.sqrt a b c := by
+  unfold rootsOrDouble
+  simp only
+  by_cases ha : a = 0
+  · -- linear
+    have hb : b ≠ 0 := hnd.resolve_left (not_not.mpr ha)
+    have hm : t ∈ quadraticRoots Real.sqrt a b c :=
+      (Roots.quadraticRoots_mem_iff a b c t).mpr ⟨⟨h0, h1⟩, hr, Or.inl ⟨ha, hb⟩⟩
+    rw [if_neg (fun h => ha.symm ▸ h.2 <| rfl)]
+    exact hm
+  · have hD : b * b - 4 * a * c = (2 * a * t + b) ^ 2 := by linear_combination (-4 * a) * hr
+    by_cases hpos : b * b - 4 * a * c > 0
+    · have hm : t ∈ quadraticRoots Real.sqrt a b c :=
+        (Roots.quadraticRoots_mem_iff a b c t).mpr ⟨⟨h0, h1⟩, hr, Or.inr ⟨ha, hpos⟩⟩
+      rw [if_neg (fun h => by rw [h.1] at hm; simp at hm)]
+      exact hm
+    · -- double root
+      have hz : b * b - 4 * a * c = 0 := le_antisymm (not_lt.mp hpos) (by rw [hD]; positivity)
+      have ht : t = -b / (2 * a) := by
+        have : 2 * a * t + b = 0 := by
+          have := hz; rw [hD] at this; exact pow_eq_zero_iff (by norm_num) |>.mp this
+        field_simp; linarith
+      have hempty : quadraticRoots Real.sqrt a b c = [] := by
+        rw [List.eq_nil_iff_forall_not_mem]
+        intro x hx
+        have := ((Roots.quadraticRoots_mem_iff a b c x).mp hx).2.2
+        rcases this with ⟨h, _⟩ | ⟨_, h⟩
+        · exact ha h
+        · exact hpos h
+      rw [if_pos ⟨hempty, ha⟩, if_pos (by rw [hz, abs_zero]; positivity), if_pos (by rw [← ht]; exact ⟨h0, h1⟩), ← ht]
+      simp
+
+/-- **quadratic lookup, positive clause, in real arithmetic**: for the curve's own point at any t in [0,1] the lookup returns a parameter
+    (never −1), provided neither coordinate is constant along the curve (K5) — and by `quad_tOfPoint_root` what it returns lies in
+    [0,1] and solves both coordinate equations up to the stated residuals -/
+theorem quad_tOfPoint_complete (a b c : Pt ℝ) (t : ℝ) (h0 : 0 ≤ t) (h1 : t ≤ 1)
+    (hx : quad_tOfPoint_coeffs_ax a.x a.y b.x b.y c.x c.y 0 0 ≠ 0 ∨ quad_tOfPoint_coeffs_bx a.x a.y b.x b.y c.x c.y 0 0 ≠ 0)
+    (hy : quad_tOfPoint_coeffs_ay a.x a.y b.x b.y c.x c.y 0 0 ≠ 0 ∨ quad_tOfPoint_coeffs_by a.x a.y b.x b.y c.x c.y 0 0 ≠ 0) :
+    quadTOfPoint Real.sqrt a b c ((Seg.quad a b c).eval t) ≠ -1 := by
+  set q := (Seg.quad a b c).eval t with hq
+  have hqx : quad_pointAtTime_x a.x a.y b.x b.y c.x c.y t = q.x := rfl
+  have hqy : quad_pointAtTime_y a.x a.y b.x b.y c.x c.y t = q.y := rfl
+  have ex : quad_tOfPoint_coeffs_ax a.x a.y b.x b.y c.x c.y q.x q.y * t * t + quad_tOfPoint_coeffs_bx a.x a.y b.x b.y c.x c.y q.x q.y * t
+      + quad_tOfPoint_coeffs_cx a.x a.y b.x b.y c.x c.y q.x q.y = 0 := by
+    have : quad_pointAtTime_x a.x a.y b.x b.y c.x c.y t - q.x = 0 := by rw [hqx]; ring
+    simp only [gen_def] at this ⊢; linarith
+  have ey : quad_tOfPoint_coeffs_ay a.x a.y b.x b.y c.x c.y q.x q.y * t * t + quad_tOfPoint_coeffs_by a.x a.y b.x b.y c.x c.y q.x q.y * t
+      + quad_tOfPoint_coeffs_cy a.x a.y b.x b.y c.x c.y q.x q.y = 0 := by
+    have : quad_pointAtTime_y a.x a.y b.x b.y c.x c.y t - q.y = 0 := by rw [hqy]; ring
+    simp only [gen_def] at this ⊢; linarith
+  have mx := rootsOrDouble_complete _ _ _ t h0 h1 ex (by simpa [gen_def] using hx)
+  have my := rootsOrDouble_complete _ _ _ t h0 h1 ey (by simpa [gen_def] using hy)
+  unfold quadTOfPoint
+  simp only [quad_tOfPoint_coeffs]
+  rw [if_neg]
+  · exact matchRoots_complete _ _ t mx my (fun x hx' => (rootsOrDouble_spec _ _ _ x hx').1.1)
+  · rintro (h | h)
+    · rw [h] at mx; simp at mx
+    · rw [h] at my; simp at my
+
 /-- K5 (known finding) on the model: a quadratic that is constant in x never finds its own points -/
 theorem quad_constant_coordinate_counterexample :
     quadTOfPoint Real.sqrt ⟨40, -200⟩ ⟨40, 190⟩ ⟨40, 130⟩ ⟨40, 0⟩ = -1 := by
